@@ -38,6 +38,8 @@ def gen_js(rng, flavour):
         lines.insert(rng.randint(0, len(lines)), 'var s = "' + 'é' * 60000 + 'x' * 40000 + '"; foo("end of long line")')
     eol = '\r\n' if flavour == 'crlf' else '\n'
     text = eol.join(lines)
+    if flavour == 'bom':
+        text = '\ufeff' + text        # a byte order mark: offsets and columns still count from the first byte of the file
     if flavour == 'last':
         text += eol + 'foo(9)'          # match at EOF, no trailing newline
     elif flavour != 'nonl':
@@ -140,7 +142,7 @@ def nontrivial(r, data, before, after):
 
 
 def run_project(rep, ctx, work, k, rng):
-    flavours = ['plain', 'crlf', 'nonl', 'first', 'last', 'long', 'plain', 'crlf']
+    flavours = ['plain', 'crlf', 'nonl', 'first', 'last', 'long', 'plain', 'crlf', 'bom']
     nfiles = rng.choice([0, 1, 2, 5, 9])
     files = {}
     for i in range(nfiles):
